@@ -371,6 +371,9 @@ func appendIntegrity(integrityCalculator *LogEntryIntegrityCalculator, formatted
 	return nil
 }
 
+// maxLogEntrySize is the maximum length of one log entry accepted by ReadLogEntries
+const maxLogEntrySize = 64 * 1024 * 1024
+
 // ReadLogEntries sequentially reads log entries from provided file list and pushes them into a channel
 func ReadLogEntries(absoluteFileNames []string, isMissingOk, debug bool) *LogEntrySource {
 	// print order of input filenames
@@ -425,6 +428,8 @@ func processLogFile(absoluteFileName string, output chan *LogEntryInfo) (err err
 	}
 	lineNumber := 0
 	scanner := bufio.NewScanner(f)
+	// log entries (long queries, error texts) may exceed the default token limit of bufio.Scanner (64 KiB)
+	scanner.Buffer(make([]byte, 0, bufio.MaxScanTokenSize), maxLogEntrySize)
 	for scanner.Scan() {
 		logEntryInfo := &LogEntryInfo{
 			RawLogEntry: scanner.Text(),
@@ -434,5 +439,7 @@ func processLogFile(absoluteFileName string, output chan *LogEntryInfo) (err err
 		output <- logEntryInfo
 		lineNumber++
 	}
-	return nil
+	// scanner stops silently on read errors and on too long lines: report that instead of pretending
+	// that the file has ended, otherwise the rest of the log is never verified
+	return scanner.Err()
 }
